@@ -269,6 +269,15 @@ def translate_process(facts):
         raise TranslatorError(f"process_nglob_changes signature changed: {pos}")
     p1, p2 = pos[1], pos[2]
     body = body_without_docstring(fn)
+    if len(body) == 3 and isinstance(body[1], (ast.Assign, ast.AnnAssign)) and isinstance(body[2], ast.For):
+        # a per-batch cache of will_change: model/NglobRegs.v process_memo.  It equals the model only when
+        # the key determines the registration (C17_memo_sound); say which key the code uses.
+        keys = sorted({_src(n.slice) for n in ast.walk(body[2]) if isinstance(n, ast.Subscript)})
+        raise TranslatorError(
+            "process_nglob_changes memoises NamedGlob.will_change per batch under the key "
+            f"{' / '.join(keys) or '?'}: not the per-registration loop of model/NglobBatch.v. A key that does not "
+            "determine (step, pattern, subs, recorded results) gives one registration another one's answer "
+            "(C17_memo_by_pattern_refuted; the oracle O6 registers the same pattern with different subs)")
     if len(body) != 2:
         raise TranslatorError(f"process_nglob_changes: expected an overlap test and one loop, got {len(body)} statements")
     chk, loop = body
